@@ -94,9 +94,11 @@ def storages(agent):
         for m in nets:
             out.add(id(m))
             for p in m.parameters():
-                out.add(("ptr", p.data_ptr()))
+                if p.numel() > 0:              # empty tensors have no storage of their own (data_ptr 0)
+                    out.add(("ptr", p.data_ptr()))
     for t in opt_state_tensors(agent):
-        out.add(("ptr", t.data_ptr()))
+        if t.numel() > 0:
+            out.add(("ptr", t.data_ptr()))
     return out
 
 
